@@ -450,6 +450,18 @@ let c05_chk t =
       | x -> failwith ("bad msg " ^ x)) in
   "ok=" ^ sb (check_serve sv n out)
 
+(* ---------- C07 ---------- *)
+(* ltxm <nreq> { <ok 0/1> <n> {seq size}*n } *)
+let c07_ltxm t =
+  let n = ti t in
+  let reqs = tlist t n (fun t -> let ok = ti t = 1 in let k = ti t in
+                         { r_ok = ok; r_recs = tlist t k (fun t -> let q = tz t in let s = tz t in (q, s)) }) in
+  join " # " (fun (st, o) ->
+      "v=" ^ (match o.o_version with None -> "-" | Some v -> sz v) ^
+      " same=" ^ sb o.o_same ^
+      " chunks=" ^ join "," (fun ((a, b), k) -> sz a ^ "-" ^ sz b ^ "[" ^ sz k ^ "]") o.o_chunks ^
+      " need=" ^ sb (st.l_bv.needed = [])) (lruns lst_init reqs)
+
 (* ---------- dispatch ---------- *)
 let handlers : (string * (toks -> string)) list ref = ref [
   "chunks", c08_chunks;
@@ -462,6 +474,7 @@ let handlers : (string * (toks -> string)) list ref = ref [
   "chk_needs", c04_chk;
   "members", c18_members;
   "chk_members", c18_chk;
+  "ltxm", c07_ltxm;
   "srvq", c05_srvq;
   "chk_srv", c05_chk;
   "part", c03_part;
